@@ -179,6 +179,11 @@ func c04GuardStateStable(c *Ctx) {
 		if c04PathsOverlap(f, "Vaxis.caps") {
 			continue
 		}
+		// a valid once-guard of the exit sequence decides whether the sequence runs at all, not how a mode is
+		// paired (C04.b / c04once.go judge its writers, C04.m the histories)
+		if once := c04OnceGuard(c); once != nil && once.valid && once.flag == f {
+			continue
+		}
 		fields = append(fields, f)
 	}
 	sort.Strings(fields)
